@@ -280,6 +280,13 @@ class Mixed:
                     nz.append(wire.udp_frame(gen_tls.CMAC, gen_tls.SMAC, bytes([10, 7, 7, 7]), bytes([10, 7, 7, 9]),
                                              40000 + k, 53, bytes(d)))
             nz.append(b"\xff" * 12 + b"\x08\x06" + rng.randbytes(28))     # ARP-like non-IP frame
+            if rng.random() < 0.5:
+                # a QUIC Version Negotiation packet (RFC 9000 17.2.1: version 0, supported versions follow) of some other
+                # client's attempt; it opens a QUIC session that never exports stream data
+                d, s_ = rng.randbytes(rng.choice([0, 8])), rng.randbytes(8)
+                vn = bytes([0x80 | rng.randrange(0x40, 0x80)]) + b"\0\0\0\0" + bytes([len(d)]) + d + bytes([len(s_)]) + s_ + \
+                    b"".join(rng.choice([b"\0\0\0\x01", b"\x6b\x33\x43\xcf", b"\xff\0\0\x1d"]) for _ in range(rng.randrange(1, 4)))
+                nz.append(wire.udp_frame(gen_tls.SMAC, gen_tls.CMAC, bytes([10, 7, 7, 10]), bytes([10, 7, 7, 7]), 443, 40100, vn))
             per.append(nz)
             self.kinds.append(("noise", 0))
         idx = [0] * len(per)
